@@ -570,6 +570,9 @@ var builtinUFuns = map[string]*UFun{
 	"TokenOf":     {"TokenOf", []Sort{SInt}, SInt},
 	"PrioOf":      {"PrioOf", []Sort{SInt}, SInt},
 	"ParseOK":     {"ParseOK", []Sort{SInt}, SBool},
+	"IDPresent":   {"IDPresent", []Sort{SInt}, SBool},
+	"TokenPresent": {"TokenPresent", []Sort{SInt}, SBool},
+	"PrioPresent": {"PrioPresent", []Sort{SInt}, SBool},
 	"ParseMap":    {"ParseMap", []Sort{SInt}, SInt},
 	"ParseMapOK":  {"ParseMapOK", []Sort{SInt}, SBool},
 	"FreshTok":    {"FreshTok", []Sort{SInt}, SBool},
